@@ -275,6 +275,117 @@ func ExploreScenario(seed int64, p Profile, x *Explorer) {
 			x.between()
 			request(A, x.R.Intn(6))
 		}
+	case "graph":
+		// reference graphs with shared children, several paths to one resource and parents that stay in the loading state
+		// (the get of resource 4 is held back), while roots are subscribed and released and references are added and removed
+		R := p.Resources
+		mk := func(vs ...absval.V) *gw.Content {
+			c := &gw.Content{IsModel: true, M: absval.KV{}}
+			for i, v := range vs {
+				c.M[i] = v
+			}
+			return c
+		}
+		ref := func(n int) absval.V { return absval.V{K: 'r', N: n} }
+		prim := func() absval.V { return absval.V{K: 'p', N: x.fresh()} }
+		switch x.R.Intn(5) {
+		case 0: // two paths to 3, and a parent of 3 that is still loading (4 is slow)
+			x.Truth[name(0)] = mk(ref(2), ref(3))
+			x.Truth[name(1)] = mk(ref(3), ref(4))
+			x.Truth[name(2)] = mk(ref(3), prim())
+		case 1: // shared middle node
+			x.Truth[name(0)] = mk(ref(2), prim())
+			x.Truth[name(1)] = mk(ref(2), ref(4))
+			x.Truth[name(2)] = mk(ref(3), prim())
+		case 2: // chain with a loading tail
+			x.Truth[name(0)] = mk(ref(2))
+			x.Truth[name(1)] = mk(ref(3), ref(4))
+			x.Truth[name(2)] = mk(ref(3), ref(4))
+		case 3: // collection root
+			x.Truth[name(0)] = &gw.Content{L: absval.List{ref(2), ref(3), prim()}}
+			x.Truth[name(1)] = mk(ref(3), ref(4))
+			x.Truth[name(2)] = mk(prim(), ref(3))
+		default: // diamond
+			x.Truth[name(0)] = mk(ref(1), ref(2))
+			x.Truth[name(1)] = mk(ref(3), ref(4))
+			x.Truth[name(2)] = mk(ref(3))
+		}
+		x.Truth[name(3)] = mk(prim())
+		x.Truth[name(4)] = mk(prim())
+		x.slowR = -1
+		if x.R.Intn(4) != 0 {
+			x.slowR, x.slowTyp = 4, "get"
+		}
+		direct := map[string]int{}
+		steps := 6 + x.R.Intn(6)
+		for st := 0; st < steps; st++ {
+			c := A
+			if x.R.Intn(4) == 0 {
+				c = B
+			}
+			n := x.R.Intn(R - 1) // resource 4 is only reached through references
+			key := c.Label + " " + name(n)
+			switch k := x.R.Intn(10); {
+			case k < 4:
+				x.sendFrame(c, "subscribe", n, "")
+				direct[key]++
+			case k < 7:
+				if direct[key] > 0 && x.outstanding[key] == 0 {
+					x.sendFrame(c, "unsubscribe", n, "")
+					direct[key]--
+				}
+			case k < 8:
+				x.customEvent(2 + x.R.Intn(2))
+			default:
+				// add or remove a reference by a change / add / remove event on a subscribed resource
+				m := x.R.Intn(3)
+				cont := x.Truth[name(m)]
+				if cont == nil || !x.Run.W.MQ.HasSub("event."+name(m)) {
+					break
+				}
+				if cont.IsModel {
+					ch := absval.KV{9: prim()}
+					kk := x.R.Intn(3)
+					switch x.R.Intn(3) {
+					case 0:
+						t := 2 + x.R.Intn(2)
+						if t != m {
+							ch[kk] = ref(t)
+						}
+					case 1:
+						ch[kk] = prim()
+					default:
+						if _, ok := cont.M[kk]; ok {
+							ch[kk] = absval.V{K: 'x'}
+						}
+					}
+					for k2, v := range ch {
+						if v.K == 'x' {
+							delete(cont.M, k2)
+						} else {
+							cont.M[k2] = v
+						}
+					}
+					x.Run.Do(gw.Action{A: "event", Subj: "event." + name(m), Ev: "change", Text: `{"values":` + ch.JSON() + `}`,
+						Abs: strconv.Itoa(m) + "\tchange\t" + absKV(ch)})
+				} else if len(cont.L) > 0 && x.R.Intn(2) == 0 {
+					idx := x.R.Intn(len(cont.L))
+					cont.L = append(cont.L[:idx:idx], cont.L[idx+1:]...)
+					x.Run.Do(gw.Action{A: "event", Subj: "event." + name(m), Ev: "remove", Text: `{"idx":` + strconv.Itoa(idx) + `}`,
+						Abs: strconv.Itoa(m) + "\tremove\t" + strconv.Itoa(idx)})
+				} else {
+					idx := x.R.Intn(len(cont.L) + 1)
+					v := ref(2 + x.R.Intn(2))
+					cont.L = append(cont.L[:idx:idx], append(absval.List{v}, cont.L[idx:]...)...)
+					x.Run.Do(gw.Action{A: "event", Subj: "event." + name(m), Ev: "add", Text: `{"idx":` + strconv.Itoa(idx) + `,"value":` + v.JSON() + `}`,
+						Abs: strconv.Itoa(m) + "\tadd\t" + strconv.Itoa(idx) + "\t" + v.String()})
+				}
+			}
+			if st == steps*2/3 {
+				x.slowR = -1 // the held-back get is answered from here on
+			}
+			x.between()
+		}
 	case "thr":
 		// every client holds a few resources; then a system reset whose governed requests (re-fetches, re-access checks)
 		// exceed the throttle, disturbed while they wait: a client leaves, unsubscribes, a second reset arrives
